@@ -194,6 +194,10 @@ impl RADAU {
             rtol[i] = 0.1 * rtol[i].powf(expm);
             atol[i] = rtol[i] * quot;
         }
+        #[cfg(feature = "verif-hooks")]
+        for i in 0..n {
+            crate::verif_hooks::record_radau_tol(i, rtol[i], atol[i]);
+        }
 
         // Newton tolerance
         let newton_tol = match self.newton_tol {
